@@ -1658,6 +1658,7 @@ def stages(ctx, chk):
         ("resolver-raises-execution-error", lambda: probe_resolver_raises_execution_error(ctx)),
         ("deep-nesting", lambda: probe_deep_nesting(ctx)),
         ("abort-order", lambda: abort_order_stage(ctx)),
+        ("e2-model", lambda: __import__("corr.C08_e2", fromlist=["e2_stage"]).e2_stage(ctx, "C08")),
     ]
 
 
@@ -1678,6 +1679,11 @@ def replay(ctx, data):
     inp = data.get("input", {})
     if inp.get("probe") == "gather-lost-update":
         return probe_gather_lost_update(ctx)
+    if inp.get("stream") == "e2-model":
+        from corr import C08_e2
+        before = len(ctx.found)
+        C08_e2.e2_stage(ctx, "C08", only=inp.get("case"))
+        return len(ctx.found) == before
     if inp.get("probe") == "stage":
         before = len(ctx.found)
         try:
